@@ -435,6 +435,9 @@ def cases(tier, seed):
     base_pairs = covers.same_dim_pairs(seed + 7, 4000 if big else 250) + [tuple(rnd.sample(canon, 2)) for _ in range(4000 if big else 250)]
     for cu, cv in base_pairs:
         spelled.append((spell(cu), spell(cv), cu, cv))
+    # the percent sign as a spelling (always included: reports known finding K16 in every tier)
+    spelled.insert(0, ("meter", "%", "meter", "percent"))
+    spelled.insert(1, ("ppm", "%", "ppm", "percent"))
     for i in range(0, len(spelled), 50):
         out.append(Case("H01.c", f"spelled:{i:06d}", M, "h_pairs", {"pairs": spelled[i : i + 50]}, validate=0, weight=3.0))
     for i in range(0, len(pairs), 250 if big else 50):
